@@ -173,15 +173,16 @@ structure GwResult where
   errors : List String
   calls : List Call
 
-/-- plan → execute → scrub → envelope (introspection answers are modelled in Model/Introspect) -/
-def gateway (c : PCtx) (cfg : ExecCfg) (op : Op) (reqVars : Option (List (String × J))) (down : Downstream) :
-    G GwResult :=
+/-- plan → execute → scrub → envelope (introspection answers are modelled in Model/Introspect).
+    `scrubOrder` stands for the Go map iteration order over the scrub table (identity by default). -/
+def gateway (c : PCtx) (cfg : ExecCfg) (op : Op) (reqVars : Option (List (String × J))) (down : Downstream)
+    (scrubOrder : Scrub → Scrub := id) : G GwResult :=
   match plan c op with
   | .error (.err m) => .ok ⟨none, [m], []⟩      -- planner error: GRAPHQL_VALIDATION_FAILED, data null
   | .error f => .error f
   | .ok (steps, sf) =>
     match execute c cfg reqVars down steps [] with
-    | .ok st => .ok ⟨some (ScrubClean.cleanAll sf st.result), [], st.calls⟩
+    | .ok st => .ok ⟨some (ScrubClean.cleanAll (scrubOrder sf) st.result), [], st.calls⟩
     | .error (.err m) => .ok ⟨none, [m], []⟩    -- execution error: data null, errors non-empty
     | .error f => .error f
 
